@@ -31,6 +31,7 @@ func init() {
 			{ID: "R06.3", Template: "T-SIBLING", Text: "interpreter recover path truncates value stack and frame stack", Min: 1},
 			{ID: "R06.4", Template: "T-WHOCALLS", Text: "panic values in the engines run-time files have a documented kind; both engines raise the same set of wasmruntime errors", Min: 10},
 			{ID: "R06.5", Template: "T-CONSULT", Text: "stack ceilings are compared before growth", Min: 3},
+			{ID: "R06.9", Template: "T-SIBLING", Text: "nested calls in the interpreter pass the running function's own instance as the calling module, so an exit closes the instance that exited (same analysis as C04 R04.13)", Min: 1},
 			{ID: "R06.8", Template: "T-MUSTPASS", Text: "a panic re-thrown by a call's recover path (snapshot restore crossing a nested call) is preceded by the same clean-up as every other failure (genuine defects found and fixed on both engines)", Min: 2},
 			{ID: "R06.6", Template: "T-REPR", Text: "closed-word transitions preserve the exit code in the high half", Min: 2},
 			{ID: "R06.7", Template: "T-MUSTPASS", Text: "the context watcher of a call is stopped by a deferred call (also on panic exits)", Min: 2},
@@ -53,6 +54,7 @@ func init() {
 }
 
 func runC06(c *core.Ctx) {
+	checkInterpCallerInstance(c, "R06.9")
 	checkWatcherStopped(c)
 	c.SSA()
 	ep := c.Pkg("internal/engine/wazevo")
